@@ -2291,6 +2291,19 @@ impl TieredEngine {
 
                     success_count += 1;
                 }
+                (None, None) if mirror_coherence.version != 0 => {
+                    // The entry mirrors canonical version N of this document (live canonical
+                    // versions start at 1) and no canonical record is left: the document was
+                    // deleted after it was mirrored, possibly while this drain was holding the
+                    // entry. Re-inserting it would undo an acknowledged delete.
+                    debug!(
+                        doc_id,
+                        drain_kind,
+                        mirror_version = mirror_coherence.version,
+                        "hot-tier drain dropped the mirror of a deleted document"
+                    );
+                    success_count += 1;
+                }
                 (None, None) | (Some(_), None) | (None, Some(_)) => {
                     warn!(
                         doc_id,
